@@ -12,6 +12,7 @@ import os
 from pathlib import Path
 
 from .. import sm
+from .. import prelude
 from ..core import Sim, SimInterrupt, SimKill
 from ..simfs import Plan, SimFS
 
@@ -57,6 +58,7 @@ def run(sim: Sim) -> None:
     fanout = mode != "json"
     sim.config.update(buffer=buf, write_through=fs.write_through, short_every=fs.short_every, mode=mode)
     saved_savers = dict(save_mod.SAVERS)
+    prelude.warm_process(sim)
     try:
         fs.install()
         if fanout:
